@@ -112,6 +112,19 @@ def _find_conversion_hops(cls: str, hop: Tuple[str, str]) -> List[Tuple[str, str
     raise exceptions.UnknownConversionError(f"Can't convert TimeArray from {start_scale!r} to {target_scale!r}")
 
 
+def _read_only(value: Any) -> Any:
+    """Make the arrays of a value that is kept in a cache read-only
+
+    The cached value is handed out to every time object that compares equal, so it is protected like the time itself.
+    """
+    if isinstance(value, np.ndarray):
+        value.flags.writeable = False
+    elif isinstance(value, tuple):
+        for v in value:
+            _read_only(v)
+    return value
+
+
 ######################################################################################################################
 # Time classes
 ######################################################################################################################
@@ -435,7 +448,7 @@ class TimeBase(np.ndarray):
 
     @lru_cache()
     def to_format(self, fmt: str):
-        return self._formats()[fmt].from_jds(self.jd1, self.jd2, scale=self.scale)
+        return _read_only(self._formats()[fmt].from_jds(self.jd1, self.jd2, scale=self.scale))
 
     def __hash__(self):
         try:
@@ -575,7 +588,7 @@ class TimeArray(TimeBase):
     def year(self):
         if isinstance(self.datetime, datetime):
             return self.datetime.year
-        return np.array([d.year for d in self.datetime])
+        return _read_only(np.array([d.year for d in self.datetime]))
 
     @property
     @lru_cache()
@@ -583,7 +596,7 @@ class TimeArray(TimeBase):
     def month(self):
         if isinstance(self.datetime, datetime):
             return self.datetime.month
-        return np.array([d.month for d in self.datetime])
+        return _read_only(np.array([d.month for d in self.datetime]))
 
     @property
     @lru_cache()
@@ -591,7 +604,7 @@ class TimeArray(TimeBase):
     def day(self):
         if isinstance(self.datetime, datetime):
             return self.datetime.day
-        return np.array([d.day for d in self.datetime])
+        return _read_only(np.array([d.day for d in self.datetime]))
 
     @property
     @lru_cache()
@@ -599,7 +612,7 @@ class TimeArray(TimeBase):
     def hour(self):
         if isinstance(self.datetime, datetime):
             return self.datetime.hour
-        return np.array([d.hour for d in self.datetime])
+        return _read_only(np.array([d.hour for d in self.datetime]))
 
     @property
     @lru_cache()
@@ -607,7 +620,7 @@ class TimeArray(TimeBase):
     def minute(self):
         if isinstance(self.datetime, datetime):
             return self.datetime.minute
-        return np.array([d.minute for d in self.datetime])
+        return _read_only(np.array([d.minute for d in self.datetime]))
 
     @property
     @lru_cache()
@@ -615,7 +628,7 @@ class TimeArray(TimeBase):
     def second(self):
         if isinstance(self.datetime, datetime):
             return self.datetime.second
-        return np.array([d.second for d in self.datetime])
+        return _read_only(np.array([d.second for d in self.datetime]))
 
     @property
     @lru_cache()
@@ -623,7 +636,7 @@ class TimeArray(TimeBase):
     def doy(self):
         if isinstance(self.datetime, datetime):
             return self.datetime.timetuple().tm_yday
-        return np.array([d.timetuple().tm_yday for d in self.datetime])
+        return _read_only(np.array([d.timetuple().tm_yday for d in self.datetime]))
 
     @property
     @lru_cache()
@@ -638,7 +651,7 @@ class TimeArray(TimeBase):
         """
         if isinstance(self.datetime, datetime):
             return self.datetime.hour * 60 * 60 + self.datetime.minute * 60 + self.datetime.second
-        return np.array([d.hour * 60 * 60 + d.minute * 60 + d.second for d in self.datetime])
+        return _read_only(np.array([d.hour * 60 * 60 + d.minute * 60 + d.second for d in self.datetime]))
 
     @property
     @lru_cache()
@@ -675,7 +688,7 @@ class TimeArray(TimeBase):
         Returns:
             Numpy-float scalar or array with (half-)integer part of Julian Day.
         """
-        return self.jd1 - self._jd_delta
+        return _read_only(self.jd1 - self._jd_delta)
 
     @property
     @lru_cache()
@@ -687,7 +700,7 @@ class TimeArray(TimeBase):
         Returns:
             Numpy-float scalar or array with fractional part of Julian Day, in the range [0., 1.).
         """
-        return self.jd2 + self._jd_delta
+        return _read_only(self.jd2 + self._jd_delta)
 
     @property
     @lru_cache()
@@ -703,7 +716,7 @@ class TimeArray(TimeBase):
         # Find whole days on the day part and the (small) rest separately, a single float Julian date only resolves 40 us
         day = np.floor(self.jd1 - 0.5)
         rest = (self.jd1 - 0.5 - day) + self.jd2
-        return self.jd1 - (day + np.floor(rest) + 0.5)
+        return _read_only(self.jd1 - (day + np.floor(rest) + 0.5))
 
     @property
     @lru_cache()
@@ -715,7 +728,7 @@ class TimeArray(TimeBase):
         Returns:
             Numpy-float scalar or array with the integer part of Modified Julian Day.
         """
-        return self.jd_int - 2_400_000.5
+        return _read_only(self.jd_int - 2_400_000.5)
 
     @property
     @lru_cache()
